@@ -20,40 +20,40 @@ import (
 )
 
 type Scenario struct {
-	Property string   `json:"property"`
-	Profile  string   `json:"profile"`
-	Seed     uint64   `json:"seed"`
-	Knobs    Knobs    `json:"knobs"`
-	Setup    []Op     `json:"setup,omitempty"`
-	Clients  [][]Op   `json:"clients,omitempty"`
-	Post     []Op     `json:"post,omitempty"`
-	Checks   []string `json:"checks"`
-	MaxSteps int      `json:"max_steps,omitempty"`
+	Property string      `json:"property"`
+	Profile  string      `json:"profile"`
+	Seed     uint64      `json:"seed"`
+	Knobs    Knobs       `json:"knobs"`
+	Setup    []Op        `json:"setup,omitempty"`
+	Clients  [][]Op      `json:"clients,omitempty"`
+	Post     []Op        `json:"post,omitempty"`
+	Checks   []string    `json:"checks"`
+	MaxSteps int         `json:"max_steps,omitempty"`
 	Worker   *WorkerSpec `json:"worker,omitempty"`
 	// free-form parameters of profile specific oracles
 	Params map[string]string `json:"params,omitempty"`
 }
 
 type ExploreCfg struct {
-	Seed      uint64             `json:"seed"`
-	PreemptP  float64            `json:"preempt_p"`
-	DelayP    float64            `json:"delay_p,omitempty"`
-	FaultP    float64            `json:"fault_p"`
-	BiasP     float64            `json:"bias_p,omitempty"`
-	MaxFaults int                `json:"max_faults"`
-	Kinds     []FaultKind        `json:"kinds,omitempty"`
+	Seed      uint64      `json:"seed"`
+	PreemptP  float64     `json:"preempt_p"`
+	DelayP    float64     `json:"delay_p,omitempty"`
+	FaultP    float64     `json:"fault_p"`
+	BiasP     float64     `json:"bias_p,omitempty"`
+	MaxFaults int         `json:"max_faults"`
+	Kinds     []FaultKind `json:"kinds,omitempty"`
 }
 
 type Stats struct {
-	Steps       int
-	SimTime     time.Duration
-	Commits     int
-	Fired       map[FaultKind]int
-	Probes      map[string]int
-	TraceDigest string
-	Nontrivial  bool
-	Crashes     int
-	Leaked      bool
+	Steps            int
+	SimTime          time.Duration
+	Commits          int
+	Fired            map[FaultKind]int
+	Probes           map[string]int
+	TraceDigest      string
+	Nontrivial       bool
+	Crashes          int
+	Leaked           bool
 	PorcupineUnknown int
 }
 
@@ -69,25 +69,25 @@ type RunResult struct {
 }
 
 type runner struct {
-	t       *testing.T
-	w       *World
-	sc      *Scenario
-	inc     *Incarnation
-	rec     *recorder
-	results []*OpResult
-	byID    map[string]*OpResult
-	exports map[string]string
-	viol    []Violation
-	seenCommits int
-	state   map[rowKey]any // committed state as of the last examined commit
-	bySig   map[string]*Op
-	crashedOps map[string]bool
-	worker  *workerWorld
-	phase   string
-	running int
-	crashes int
-	doneLines []string
-	post      []func() ([]Violation, bool)
+	t             *testing.T
+	w             *World
+	sc            *Scenario
+	inc           *Incarnation
+	rec           *recorder
+	results       []*OpResult
+	byID          map[string]*OpResult
+	exports       map[string]string
+	viol          []Violation
+	seenCommits   int
+	state         map[rowKey]any // committed state as of the last examined commit
+	bySig         map[string]*Op
+	crashedOps    map[string]bool
+	worker        *workerWorld
+	phase         string
+	running       int
+	crashes       int
+	doneLines     []string
+	post          []func() ([]Violation, bool)
 	imp           *importTrack
 	started       map[string]*Op
 	importCommits map[string]int
@@ -397,6 +397,7 @@ func RunScenario(t *testing.T, sc *Scenario, plan *Plan, ex *ExploreCfg) (res *R
 
 func runInBubble(t *testing.T, sc *Scenario, plan *Plan, ex *ExploreCfg, res *RunResult) {
 	w := NewWorld()
+	w.lenientReads = sc.Params["lenient_reads"] == "1"
 	seed := sc.Seed
 	if ex != nil {
 		seed = ex.Seed
@@ -634,7 +635,11 @@ func checkNo5xx(r *runner) []Violation {
 		}
 		switch or.Out.Class {
 		case "server_err", "panic":
-			vs = append(vs, Violation{r.sc.Property, "client-side-fault-never-answered-5xx", fmt.Sprintf("%s %s answered %d %s %s with faults %v", or.Op.ID, or.Op.Kind, or.Out.Status, or.Out.Code, or.Out.Msg, or.Faults)})
+			what := or.Op.Kind
+			if or.Op.Kind == KRaw && or.Op.Raw != nil {
+				what = fmt.Sprintf("%s %s body=%s", or.Op.Raw.Method, or.Op.Raw.Path, truncate(or.Op.Raw.Body, 400))
+			}
+			vs = append(vs, Violation{r.sc.Property, "client-side-fault-never-answered-5xx", fmt.Sprintf("%s %s answered %d %s %s %s with faults %v", or.Op.ID, what, or.Out.Status, or.Out.Code, or.Out.Msg, or.Out.Class, or.Faults)})
 		}
 	}
 	return vs
